@@ -130,11 +130,13 @@ theorem package_decodes_to_constructed (p : Package) (hos : p.os = "linux" ∨ p
 example : buildPlan [.or, .provides "a", .or, .or, .requires ⟨"b", [("k", .int 1)]⟩] =
     ⟨⟨[], []⟩, [⟨["a"], []⟩, ⟨[], []⟩, ⟨[], [⟨"b", [("k", .int 1)]⟩]⟩]⟩ := by rfl
 
-/-- a process with everything default is written with `type` and `command` only; `default = true` and a working
-directory are written under the specification's keys -/
-example : encode Gen.S.Launch (buildLaunch [.process "web" ["x"] [], .process "w" [] [.arg "a", .dflt true, .wd (some "d")]]).toVal =
-    some (.tbl [("processes", .arr [.tbl [("command", .arr [.str "x"]), ("type", .str "web")],
-      .tbl [("args", .arr [.str "a"]), ("command", .arr []), ("default", .bool true), ("type", .str "w"), ("working-dir", .str "d")]])]) := by rfl
+/-- the hypotheses of `launch_decodes_to_constructed` are met by a launch with an all-default process and one with
+arguments, `default = true` and a working directory; the tree written for it is read back by the specification's reader -/
+example : hasType Gen.S.Launch (buildLaunch [.process "web" ["x"] [], .process "w" [] [.arg "a", .dflt true, .wd (some "d")]]).toVal = true := by decide
+
+example : (match encode Gen.S.Launch (buildLaunch [.process "web" ["x"] [], .process "w" [] [.arg "a", .dflt true, .wd (some "d")]]).toVal with
+    | some t => accepts Spec.Cnb.launchToml t
+    | none => false) = true := by rfl
 
 example : writtenDocs.length = 16 := by decide
 
